@@ -8,6 +8,10 @@
 //!   part 2 (protocol level) : a catalogue of protocol-violating performatives (c15_scen.rs `catalogue()`; it also
 //!                             holds one control - a heartbeat - that judges the harness, and one protocol-legal
 //!                             drain flow that the corruption corpus showed to wedge a link)
+//!   part 3 (resumption)     : a link with unsettled deliveries is detached without closing and resumed; the peer's
+//!                             answering attach carries a lying `unsettled` map (c15_resume.rs: right / unknown tags x
+//!                             received offsets at, beyond and far beyond the end, non-existent sections, terminal and
+//!                             transactional states, null x incomplete-unsettled), sender and receiver links;
 //!   x endpoint state reached by a conforming history prefix (before/after begin, attach, credit, outstanding
 //!     deliveries, in the middle of a multi-frame delivery in either direction, during detach/end/close)
 //!   x role (real client against the scripted peer; real listener against the scripted peer as client).
@@ -103,6 +107,14 @@ fn cases(thorough: bool) -> Vec<Case> {
             }
         }
     }
+    // the family "resumption with a lying unsettled map": its own scenario (c15_resume.rs); the state tag names
+    // the closest state of the grid (sender: outstanding deliveries; receiver: in the middle of a delivery)
+    for role in [Role::Client, Role::Listener] {
+        for sp in scen15::resume::specs(thorough) {
+            let state = if sp.side == scen15::resume::Side::Sender { St::Unsettled } else { St::MidIn };
+            out.push(Case { role, state, bad: Bad::Resume(sp) });
+        }
+    }
     let raws: Vec<(String, String, Arc<Vec<u8>>)> = raw_corpus(thorough).into_iter().map(|r| (r.family, r.label, Arc::new(r.bytes))).collect();
     for state in states_frames(thorough) {
         for role in [Role::Client, Role::Listener] {
@@ -118,6 +130,7 @@ fn case_json(c: &Case) -> J {
     let bad = match &c.bad {
         Bad::Item(i) => json!({"item": catalogue()[*i].name}),
         Bad::Raw { family, label, bytes } => json!({"family": family, "label": label, "hex": hex(bytes)}),
+        Bad::Resume(sp) => json!({"resume": sp.to_json()}),
     };
     json!({"role": c.role.tag(), "state": c.state.tag(), "bad": bad})
 }
@@ -128,6 +141,8 @@ fn case_from_json(j: &J) -> Option<Case> {
     let b = j.get("bad")?;
     let bad = if let Some(n) = b.get("item").and_then(|x| x.as_str()) {
         Bad::Item(scen15::item_index(n)?)
+    } else if let Some(r) = b.get("resume") {
+        Bad::Resume(scen15::resume::RSpec::from_json(r)?)
     } else {
         Bad::Raw {
             family: b.get("family")?.as_str()?.to_string(),
@@ -386,7 +401,7 @@ fn sweep(ctx: &Ctx, list: &Arc<Vec<Case>>, thorough: bool, machinery: &Mutex<Vec
     // this outer one only catches a worker that is stuck outside an execution
     let per_case = watchdog(thorough) * 20 + Duration::from_secs(150);
     const BATCH: usize = 1;
-    let n_single = list.iter().take_while(|c| matches!(c.bad, Bad::Item(_))).count();
+    let n_single = list.iter().take_while(|c| !matches!(c.bad, Bad::Raw { .. })).count();
     std::thread::scope(|sc| {
         for _ in 0..ctx.threads.max(1) {
             sc.spawn(|| {
@@ -526,18 +541,31 @@ pub fn run(ctx: &Ctx) -> Outcome {
     let mut by_state: BTreeMap<&'static str, u64> = BTreeMap::new();
     let mut api_hist: BTreeMap<String, u64> = BTreeMap::new();
     let mut families: BTreeSet<String> = BTreeSet::new();
+    let mut resume_hist: BTreeMap<String, u64> = BTreeMap::new();
     let (mut full, mut hangs, mut watchdogs, mut crashes, mut machs) = (0u64, 0u64, 0u64, 0u64, 0u64);
     let (mut max_bad_ms, mut max_ms, mut max_alloc) = (0f64, 0f64, 0usize);
     for r in &results {
         let case = &list[r.i];
         let fam = case.family();
-        *by_part.entry(if matches!(case.bad, Bad::Item(_)) { "protocol-level" } else { "frame-level" }).or_insert(0) += 1;
+        *by_part
+            .entry(match case.bad {
+                Bad::Item(_) => "protocol-level",
+                Bad::Resume(_) => "resumption-with-lying-unsettled-map",
+                Bad::Raw { .. } => "frame-level",
+            })
+            .or_insert(0) += 1;
         families.insert(fam.clone());
         if let Some(m) = &r.mach {
             machs += 1;
             if machs <= 5 {
                 out.machinery_errors.push(m.clone());
             }
+        }
+        if let (Bad::Resume(sp), true) = (&case.bad, r.full) {
+            // what resume() returned, per side of the link (the first probe of the family)
+            let first = r.api.split(',').next().unwrap_or("").to_string();
+            *resume_hist.entry(format!("{} {}", case.role.tag(), first)).or_insert(0) += 1;
+            let _ = sp;
         }
         if r.full {
             full += 1;
@@ -595,6 +623,10 @@ pub fn run(ctx: &Ctx) -> Outcome {
     if let Some(i) = pick(&|r, c| matches!(c.bad, Bad::Raw { .. }) && c.state == St::Credit && r.react.starts_with("close(")) {
         want.push(i);
     }
+    if let Some(i) = pick(&|r, c| matches!(c.bad, Bad::Resume(sp) if sp.side == scen15::resume::Side::Sender && sp.lie == scen15::resume::Lie::RecvLenP1 && sp.tags == scen15::resume::Tags::Right) && r.react.contains("transfer")) {
+        want.truncate(2);
+        want.push(i);
+    }
     if want.len() < 3 {
         if let Some(i) = pick(&|_, _| true) {
             want.push(i);
@@ -619,9 +651,10 @@ pub fn run(ctx: &Ctx) -> Outcome {
     out.set(
         "bound",
         format!(
-            "protocol level: {} catalogue items x states {:?} x 2 roles; frame level: {} byte strings (sizes, 256 doff, 256 type, doff x type grid, bombs, single-position corruptions of {} seed performatives) x states {:?} x 2 roles",
+            "protocol level: {} catalogue items x states {:?} x 2 roles; resumption with a lying unsettled map: {} cases (sender|receiver link x 3 sets of unsettled deliveries x {{right tag(s), unknown tag, both}} x 16 delivery states + no map + empty map x incomplete-unsettled false|true) x 2 roles; frame level: {} byte strings (sizes, 256 doff, 256 type, doff x type grid, bombs, single-position corruptions of {} seed performatives) x states {:?} x 2 roles",
             catalogue().len(),
             states_protocol(thorough).iter().map(|s| s.tag()).collect::<Vec<_>>(),
+            scen15::resume::specs(thorough).len(),
             n_raw,
             corpus15::seed_count(),
             states_frames(thorough).iter().map(|s| s.tag()).collect::<Vec<_>>()
@@ -634,6 +667,7 @@ pub fn run(ctx: &Ctx) -> Outcome {
     out.set("wire_reactions", json!(reactions));
     out.set("probe_outcomes", json!(api_hist));
     out.set("input_families", families.len() as u64);
+    out.set("resumption_family_resume_call_outcomes", json!(resume_hist));
     out.set("hang_findings", hangs);
     out.set("watchdog_cases", watchdogs);
     out.set("worker_crashes", crashes);
